@@ -26,6 +26,20 @@ Strengthening (far tails, prior space x parameter mode):
    (tag pow10 / id + exact sample) is compared with what the setters of a real ForwardModel receive through a real
    Optimizer (harness/fx_priors.py), four parameters at a time.  "deliver" trace events give binding B; the
    by_mode variant of the spec must be refuted by TLC (self-test).
+
+Strengthening, round 2 (WHERE the fitted parameter lives):
+ * Priors.tla: Owners = {model, observation}, InForce(owner, user prior, mode, bounds) -- the prior in force after
+   compile_params is the user's when one was given and the default of the parameter's own mode and bounds otherwise,
+   for either owner; constant Passes ("second_blind": the second pass of compile_params -- the observation's
+   parameters -- does not see the user's priors) is the expected-counterexample variant.
+ * MC_PriorDelivery.tla: the parameter under focus is owned by the model or by the observation and is fitted alone
+   (model-only / observation-only fitted sets) or in company of a fitted parameter of the OTHER owner that has a default
+   prior or a user prior of the other space (mixed sets); actions Attach, CompileModel, CompileObservation, Recompile,
+   Update; invariants DeliveryInv / RouteInv per owner, UserPriorInForceInv, DefaultOnlyWhenNoneInv, OwnerInv.
+   Replayed on a real Optimizer over a recording ForwardModel AND a recording BaseSpectrum subclass with @fitparam
+   parameters (fx_priors.RecordingObservation): the fitted names, the prior in force (delivery_prior_attached) and what
+   the setters of either owner receive (delivered_to_model / delivered_to_observation).  "deliver" trace events carry
+   owner, company and whether a prior was given (else: bounds; the default of the mode must be in force).
 """
 import json
 import math
@@ -772,11 +786,13 @@ def run_traces(ctx, n, zf, pts):
                 continue                    # every candidate was rejected already: the validation is not vacuous
             raise Machinery('no %s/%s event for the canary' % (op, kind))
         c = dict(good[len(good) // 2])
+        # far outside every bracket of the normal table: a cell of the grid is at most 0.39 standard deviations wide
+        bump = 40 * abs(c['gtol']) + 500 + abs(int(c['S'] * c['b'][0] / c['b'][1]))
         if op == 'deliver':                 # the other reading of the value: 10**x where x is due and vice versa
             for f in ('lin', 'log'):
-                c[f] = c[f] + 40 * c['gtol'] + 500
+                c[f] = c[f] + bump
         else:
-            c['m1'] = c['m1'] + 40 * c['gtol'] + 500
+            c['m1'] = c['m1'] + bump
         canaries.append(c)
     if canaries:
         ok2, bad2, _ = validate_trace('Trace_Priors', 'Trace_Priors.cfg', canaries, env={'PRIORS_Z_FILE': zf})
@@ -798,7 +814,9 @@ def run(ctx):
                                   '(%d points quick / %d thorough) from 2^-1074 to 1 - 2^-53, joined to the grid at 1/16, 15/16'
                                   % (17 + 10 + 11 + 5, 30 + 19 + 24 + 11),
                       delivery='6 constructor forms x 4 parameter kinds (declared linear/log, switched either way) x routes '
-                               'set_prior / text (3 spellings) / input file / default, u = k/16')
+                               'set_prior / text (3 spellings) / input file / default, u = k/16; x owner of the parameter '
+                               '(model / observation) x fitted set (that parameter alone, or with a fitted parameter of the other '
+                               'owner that has a default prior / a user prior of the other space)')
     ctx.assumptions = ['the normal quantile is an uninterpreted strictly increasing odd table in the spec; its numerical '
                        'values come from statistics.NormalDist.inv_cdf (stdlib), not from scipy',
                        'float 10**x at the boundary; log10(10**e) == e checked for every exponent used',
@@ -809,10 +827,12 @@ def run(ctx):
                        'tolerance of 1e-9 plus the conditioning of x = mean + sd z; below 2^-1022 (subnormal mass) only the table, '
                        'finiteness, monotonicity',
                        'uniform kinds cannot be strictly monotone in doubles for tiny u (lo + u w rounds to lo): non-decreasing there',
-                       'delivery is observed at the setters of a recording ForwardModel declared with @fitparam (harness/fx_priors.py)',
+                       'delivery is observed at the setters of a recording ForwardModel and of a recording BaseSpectrum subclass, both '
+                       'declared with @fitparam (harness/fx_priors.py); parameter names are distinct between the two owners',
                        'TLC + CommunityModules Json/IOUtils']
     verify_ladder_table(['MC_Priors_%s.cfg' % ctx.tier, 'MC_Priors_asgiven.cfg', 'EX_Priors.cfg' if q else 'EX_Priors_thorough.cfg',
-                         'Trace_Priors.cfg', 'MC_PriorDelivery_%s.cfg' % ctx.tier, 'MC_PriorDelivery_bymode.cfg'])
+                         'Trace_Priors.cfg', 'MC_PriorDelivery_%s.cfg' % ctx.tier, 'MC_PriorDelivery_bymode.cfg',
+                         'MC_PriorDelivery_secondblind.cfg'])
     zf = z_file()
     try:
         env = {'PRIORS_Z_FILE': zf}
